@@ -6,6 +6,7 @@ import (
 	"github.com/GuanceCloud/platypus/internal/verifsim/c10"
 	"github.com/GuanceCloud/platypus/internal/verifsim/c13"
 	"github.com/GuanceCloud/platypus/internal/verifsim/c14"
+	"github.com/GuanceCloud/platypus/internal/verifsim/c15"
 	"github.com/GuanceCloud/platypus/internal/verifsim/core"
 )
 
@@ -14,4 +15,5 @@ func init() {
 	core.Register(c10.Prop{})
 	core.Register(c13.Prop{})
 	core.Register(c14.Prop{})
+	core.Register(c15.Prop{})
 }
